@@ -375,6 +375,23 @@ def v1_translation(prog: Program, rep: Report) -> None:
     without = [o for o in outs if "continuous" not in o["result"].get("release", {})]
     noreltype = _v1_status(rep, rule, v1, v1_outcomes(prog, True, absent=[("particle_release", "release_type")]), "no release_type")
     ok = bool(with_c) and bool(without) and all("continuous" not in o["result"].get("release", {}) and "release_frequency" not in o["result"].get("release", {}) for o in noreltype) and all(o["result"]["release"].get("release_frequency") == Sym(("particle_release", "release_frequency")) for o in with_c) and all("release_frequency" not in o["result"]["release"] for o in without)
+    # the state and ibm sections of the translation (the v1 file declares its variables under ibm / particle_release)
+    st_keys = [set(o["result"].get("state", {})) if isinstance(o["result"].get("state"), dict) else set() for o in outs]
+    rep.check(rule, v1.qual, "state section: instance_variables, particle_variables and default_values are all handed on", bool(outs) and all({"instance_variables", "particle_variables", "default_values"} <= k for k in st_keys), what_bad=f"state sections carry {sorted(set.intersection(*st_keys)) if st_keys else []}: variables a v1 file declares would be missing from the state of the translated run", what_ok="three tables", loc=v1.loc())
+    ibmvar = Sym(("ibm", "variables", "*"))
+    with_vars = [o for o in outs if isinstance(o["result"].get("state"), dict) and isinstance(o["result"]["state"].get("instance_variables"), dict)]
+    seen_var = [o for o in with_vars if ibmvar in o["result"]["state"]["instance_variables"]]
+    if seen_var:
+        ok_iv = all(o["result"]["state"]["instance_variables"].get(ibmvar) == "float" and isinstance(o["result"]["state"].get("default_values"), dict) and ibmvar in o["result"]["state"]["default_values"] for o in seen_var)
+        rep.check(rule, v1.qual, "ibm variables become float instance variables with a default", ok_iv, what_bad="an ibm variable of a v1 file reaches the state without type or without default: the v2 spelling (which lists it under state) describes another simulation", what_ok="float, defaulted", loc=v1.loc())
+    else:
+        rep.bad(rule, v1.qual, "ibm variables become float instance variables with a default", "the variables a v1 file lists under ibm are not handed to the state", v1.loc())
+    ibm_secs = [o["result"].get("ibm") for o in outs]
+    generic = Sym(("ibm", "*"))
+    has_mod = [x for x in ibm_secs if isinstance(x, dict) and "module" in x]
+    has_rest = [x for x in ibm_secs if isinstance(x, dict) and any(k == generic or (isinstance(k, Sym) and k.path[:1] == ("ibm",)) for k in x)]
+    rep.check(rule, v1.qual, "ibm section: the module and every other entry are handed on", bool(has_mod) and bool(has_rest), what_bad="the ibm section of the translation is empty although the v1 file has one", what_ok="passed on", loc=v1.loc())
+
     def says_continuous(o):
         """the outcome's resolution of the fact `release_type equals 'continuous'` (None if it was never asked)"""
         for (ln, col, what), val in o["choices"].items():
